@@ -200,6 +200,21 @@ func runC19(r *vfw.Run) {
 		c2, s2 := net.Pipe()
 		go srv.ServeCodec(rpc.NewJSONCodec(s2), rpc.OptionMethodInvocation|rpc.OptionSubscriptions)
 		rd2 := json.NewDecoder(c2)
+		// the connection has a past: sometimes a batch in which every element carried the key went over it before
+		// (whatever the codec keeps between messages of one connection must not lend those keys to later elements)
+		if t.ChooseOpt("c19.primed", 2) == 1 {
+			k := 1 + t.Choose("c19.primen", 7)
+			var pp []string
+			for i := 0; i < k; i++ {
+				pp = append(pp, fmt.Sprintf(`{"jsonrpc":"2.0","id":%d,"method":"probe_call","params":[7],"key":"%s"}`, 9000+i, c19Key))
+			}
+			if _, perr := send(c2, rd2, "["+strings.Join(pp, ",")+"]"); perr != nil {
+				r.Trouble("priming batch: %v", perr)
+			}
+			time.Sleep(2 * time.Millisecond)
+			base = probe.total()
+			r.Fault("keyed_batch_earlier_on_the_same_connection")
+		}
 		respRaw, err = send(c2, rd2, msg)
 		if t.Choose("c19.closemid", 6) == 0 {
 			r.Fault("connection_closed_after_request")
@@ -328,8 +343,20 @@ func c19Lifecycle(r *vfw.Run) {
 	viaFile := r.Tape.Choose("c19.keyvia", 2) == 0
 	cfg := &config.Config{DataDir: dir, Network: 0x77, RPC: rpc.GetDefaultRPCConfig("127.0.0.1", 0), IpfsConf: &config.IpfsConfig{}, Consensus: config.GetDefaultConsensusConfig(),
 		GenesisConf: &config.GenesisConf{}, Validation: &config.ValidationConfig{}, Blockchain: &config.BlockchainConfig{}, Sync: &config.SyncConfig{}, P2P: config.P2P{}}
+	fileKind := ""
 	if viaFile {
-		os.WriteFile(filepath.Join(dir, "api.key"), []byte(fileKey), 0600)
+		// what a data directory can hold: the key, the key with a line end, or - after a start that was killed between
+		// truncating and writing the file, or a full disk - nothing (the node then makes up a new key; it never runs open)
+		content := fileKey
+		switch r.Tape.ChooseOpt("c19.keyfile", 4) {
+		case 1:
+			content, fileKind = fileKey+"\n", " with a line end"
+		case 2:
+			content, fileKind = "", " (empty file)"
+		case 3:
+			content, fileKind = " \n", " (blank file)"
+		}
+		os.WriteFile(filepath.Join(dir, "api.key"), []byte(content), 0600)
 	} else {
 		cfg.RPC.APIKey = fileKey
 	}
@@ -378,11 +405,11 @@ func c19Lifecycle(r *vfw.Run) {
 	if rp.Error == nil || rp.Error.Code != -32800 {
 		where := "given in the configuration"
 		if viaFile {
-			where = "kept in the data directory (api.key)"
+			where = "kept in the data directory (api.key)" + fileKind
 		}
 		r.Violate("C19:initial-endpoint-serves-keyless-request", "node configured with an API key %s: a request without key sent to the initial endpoint while the database is being opened was answered with %s", where, answered)
 	}
-	r.Case(fmt.Sprintf("lifecycle/file=%v", viaFile), true)
+	r.Case(fmt.Sprintf("lifecycle/file=%v%s", viaFile, fileKind), true)
 	if r.Sample == nil {
 		r.Sample = map[string]interface{}{"kind": "life cycle", "key_via_file": viaFile, "response": answered}
 	}
